@@ -63,6 +63,8 @@ type Interp struct {
 	hot    []*hotspot.Rule
 	soaked bool
 	soakAt uint64
+	wedged bool
+	cmaps  map[string]map[interface{}]interface{} // the caller's own attachment maps (WithAttachments arguments)
 	rv     *rendezvous
 }
 
@@ -78,13 +80,16 @@ func New() vh.Interp {
 }
 
 func (it *Interp) Reset() {
-	// finish what the previous case left in flight (contexts go back to the pool, gauges are balanced)
-	for i := len(it.order) - 1; i >= 0; i-- {
+	// finish what the previous case left in flight (contexts go back to the pool, gauges are balanced) - unless an op
+	// hung: then nothing of that case is touched again
+	for i := len(it.order) - 1; i >= 0 && !it.wedged; i-- {
 		x := it.ents[it.order[i]]
 		if x.e != nil && !x.exited {
 			x.e.Exit()
 		}
 	}
+	it.wedged = false
+	it.cmaps = map[string]map[interface{}]interface{}{}
 	// the inbound node is package level: bring its gauge back to zero (a recovered panic leaves it off by one)
 	in := stat.InboundNode()
 	for in.CurrentConcurrency() < 0 {
@@ -373,6 +378,15 @@ func (it *Interp) soak(G, N int, R, seed uint64) string {
 				if x4%3 == 1 {
 					sentinel.TraceError(e, &tagErr{"t"})
 				}
+				if x3%5 == 0 { // exit handlers (nil / error) do not change the account
+					herr := x3%2 == 0
+					e.WhenExit(func(*base.SentinelEntry, *base.EntryContext) error {
+						if herr {
+							return &tagErr{"handler"}
+						}
+						return nil
+					})
+				}
 				if x4%3 == 2 {
 					e.Exit(base.WithError(&tagErr{"x"}))
 				} else {
@@ -394,7 +408,42 @@ func (it *Interp) soak(G, N int, R, seed uint64) string {
 
 // --- ops ---------------------------------------------------------------------------------------
 
+// Step runs one op under a watchdog: an op that does not return within `hangAfter` of real time (a mutex left locked, a
+// lost wake-up) is reported as the observation `HANG`; the rest of the case is answered `HANG` without touching the
+// library again (the stuck goroutine is abandoned), the next case starts afresh.
 func (it *Interp) Step(t []string, op string) string {
+	if it.wedged {
+		return "HANG"
+	}
+	done := make(chan string, 1)
+	go func() {
+		defer func() {
+			if r := recover(); r != nil {
+				done <- strings.ReplaceAll(fmt.Sprintf("PANIC %v", r), "\n", " ")
+			}
+		}()
+		done <- it.step(t, op)
+	}()
+	select {
+	case r := <-done:
+		return r
+	case <-time.After(hangAfter):
+		it.wedged = true
+		return "HANG"
+	}
+}
+
+const hangAfter = 1500 * time.Millisecond
+
+func sortedKV(m map[interface{}]interface{}) string {
+	xs := make([]string, 0, len(m))
+	for k, v := range m {
+		xs = append(xs, fmt.Sprintf("%v=%v", k, v))
+	}
+	return vh.SortedList(xs)
+}
+
+func (it *Interp) step(t []string, op string) string {
 	switch t[0] {
 	case "clock":
 		rel := vh.U(t[1])
@@ -410,9 +459,13 @@ func (it *Interp) Step(t []string, op string) string {
 			if _, err := isolation.LoadRules(it.iso); err != nil {
 				panic(err)
 			}
-		case "hot":
-			it.hot = append(it.hot, &hotspot.Rule{Resource: t[2], MetricType: hotspot.QPS, ControlBehavior: hotspot.Reject,
-				ParamIndex: 0, Threshold: 1 << 40, DurationInSec: 1})
+		case "hot", "hotc":
+			r := &hotspot.Rule{Resource: t[2], MetricType: hotspot.QPS, ControlBehavior: hotspot.Reject,
+				ParamIndex: 0, Threshold: 1 << 40, DurationInSec: 1}
+			if t[1] == "hotc" {
+				r = &hotspot.Rule{Resource: t[2], MetricType: hotspot.Concurrency, ParamIndex: 0, Threshold: 1 << 40}
+			}
+			it.hot = append(it.hot, r)
 			if _, err := hotspot.LoadRules(it.hot); err != nil {
 				panic(err)
 			}
@@ -421,35 +474,63 @@ func (it *Interp) Step(t []string, op string) string {
 		}
 		return ""
 	case "entry":
-		rty := base.ResTypeCommon
-		if len(t) > 4 && strings.HasPrefix(t[4], "type=") {
-			v, ok := resTypes[t[4][5:]]
-			if !ok {
-				panic("bad resource type " + t[4])
-			}
-			rty = v
-			t = append(append([]string{}, t[:4]...), t[5:]...)
-		}
+		// entry <id> <res> in|out|- [type=<t>] [flag=<n>] <batch|-> <chain> <nargs> <arg>* [| k=v* [| k=v*]]
+		// `-` / an absent token = the option is NOT passed (the pooled EntryOptions must supply the default)
 		id, res := t[1], t[2]
 		if _, dup := it.ents[id]; dup {
 			panic("duplicate id")
 		}
-		opts := []sentinel.EntryOption{sentinel.WithBatchCount(uint32(vh.U(t[4]))), sentinel.WithResourceType(rty)}
-		if t[3] == "in" {
+		var opts []sentinel.EntryOption
+		switch t[3] {
+		case "in":
 			opts = append(opts, sentinel.WithTrafficType(base.Inbound))
-		} else {
+		case "out":
 			opts = append(opts, sentinel.WithTrafficType(base.Outbound))
 		}
-		if sc := it.chain(t[5]); sc != nil {
+		i := 4
+		for ; ; i++ {
+			if strings.HasPrefix(t[i], "type=") {
+				v, ok := resTypes[t[i][5:]]
+				if !ok {
+					panic("bad resource type " + t[i])
+				}
+				opts = append(opts, sentinel.WithResourceType(v))
+			} else if strings.HasPrefix(t[i], "flag=") {
+				opts = append(opts, sentinel.WithFlag(int32(vh.I(t[i][5:]))))
+			} else {
+				break
+			}
+		}
+		if t[i] != "-" {
+			opts = append(opts, sentinel.WithBatchCount(uint32(vh.U(t[i]))))
+		}
+		if sc := it.chain(t[i+1]); sc != nil {
 			opts = append(opts, sentinel.WithSlotChain(sc))
 		}
-		n := int(vh.U(t[6]))
+		n := int(vh.U(t[i+2]))
 		if n > 0 {
 			args := make([]interface{}, 0, n)
-			for _, a := range t[7 : 7+n] {
+			for _, a := range t[i+3 : i+3+n] {
 				args = append(args, parseArg(a))
 			}
 			opts = append(opts, sentinel.WithArgs(args...))
+		}
+		if rest := t[i+3+n:]; len(rest) > 0 {
+			if rest[0] != "|" {
+				panic("bad attachments " + op)
+			}
+			cm := map[interface{}]interface{}{}
+			j := 1
+			for ; j < len(rest) && rest[j] != "|"; j++ {
+				kv := strings.SplitN(rest[j], "=", 2)
+				cm[kv[0]] = kv[1]
+			}
+			it.cmaps[id] = cm
+			opts = append(opts, sentinel.WithAttachments(cm))
+			for j++; j < len(rest); j++ {
+				kv := strings.SplitN(rest[j], "=", 2)
+				opts = append(opts, sentinel.WithAttachment(kv[0], kv[1]))
+			}
 		}
 		e, b := sentinel.Entry(res, opts...)
 		x := &ent{e: e}
@@ -463,6 +544,27 @@ func (it *Interp) Step(t []string, op string) string {
 			return "block"
 		}
 		return "both-or-neither" // "exactly one outcome" is part of the property
+	case "whenexit":
+		x := it.ents[t[1]]
+		if x.e == nil {
+			return ""
+		}
+		switch t[2] {
+		case "ok":
+			x.e.WhenExit(func(*base.SentinelEntry, *base.EntryContext) error { return nil })
+		case "err":
+			x.e.WhenExit(func(*base.SentinelEntry, *base.EntryContext) error { return &tagErr{"handler"} })
+		case "panic":
+			x.e.WhenExit(func(*base.SentinelEntry, *base.EntryContext) error { panic("exit handler panics") })
+		default:
+			panic("bad handler kind")
+		}
+		return ""
+	case "attmut":
+		it.cmaps[t[1]][t[2]] = t[3] // the caller goes on using its own map
+		return ""
+	case "attmap":
+		return sortedKV(it.cmaps[t[1]])
 	case "trace":
 		x := it.ents[t[1]]
 		sentinel.TraceError(x.e, mkErr(t[2]))
@@ -513,6 +615,13 @@ func (it *Interp) Step(t []string, op string) string {
 			return "nil"
 		}
 		switch t[2] {
+		case "type":
+			for name, v := range resTypes {
+				if v == n.ResourceType() {
+					return name
+				}
+			}
+			return "?"
 		case "sum":
 			return fmt.Sprint(n.GetSum(ev(t[3])))
 		case "sum10":
@@ -541,6 +650,12 @@ func (it *Interp) Step(t []string, op string) string {
 			return errTag(x.e.Context().Err())
 		case "args":
 			return vh.List(showArgs(x.e.Context().Input.Args))
+		case "att":
+			return sortedKV(x.e.Context().Input.Attachments)
+		case "flag":
+			return fmt.Sprint(x.e.Context().Input.Flag)
+		case "batch":
+			return fmt.Sprint(x.e.Context().Input.BatchCount)
 		}
 	case "soak":
 		return it.soak(int(vh.U(t[1])), int(vh.U(t[2])), vh.U(t[3]), vh.U(t[4]))
